@@ -544,6 +544,9 @@ func faultScenario(kind, fault string, rng *rand.Rand) {
 	if fault == "streamlimit" {
 		quicStreamLimit.Store(2)
 	}
+	if fault == "halfmany" {
+		quicStreamLimit.Store(4)
+	}
 	s := newFsrv(kind)
 	quicStreamLimit.Store(0)
 	fsrvMu.Unlock()
@@ -639,6 +642,17 @@ func faultScenario(kind, fault string, rng *rand.Rand) {
 		one(800*time.Millisecond, "reply")
 		s.fault.Store("")
 		time.Sleep(150 * time.Millisecond) // the server closed the idle connection meanwhile
+		for i := 0; i < 3; i++ {
+			one(1500*time.Millisecond, "reply")
+		}
+	case "halfmany":
+		// more replies whose length prefix lies (and whose stream the server leaves open) than the connection has
+		// streams: every exchange that gives up lets go of its stream, so the upstream keeps working afterwards
+		s.fault.Store("half")
+		for i := 0; i < 7; i++ {
+			one(250*time.Millisecond, "any")
+		}
+		s.fault.Store("")
 		for i := 0; i < 3; i++ {
 			one(1500*time.Millisecond, "reply")
 		}
@@ -863,7 +877,7 @@ func modeFault(thorough bool) {
 	onlyEvents = map[string]bool{} // hook and server events are not needed here
 	rng := rand.New(rand.NewSource(seed))
 	kinds := []string{"udp", "tcp", "tcp+pipeline", "tls", "tls+pipeline", "https", "quic", "h3"}
-	faults := []string{"refuse", "silent", "noreply", "half", "garbage", "fin", "rst", "stall", "stale", "kill", "sndbuf", "sndbuf2", "sndbuf3", "eol", "restart", "garbage2nd", "halfsteady", "streamlimit", "stalebig"}
+	faults := []string{"refuse", "silent", "noreply", "half", "garbage", "fin", "rst", "stall", "stale", "kill", "sndbuf", "sndbuf2", "sndbuf3", "eol", "restart", "garbage2nd", "halfsteady", "streamlimit", "stalebig", "halfmany"}
 	var wg sync.WaitGroup
 	sem := make(chan struct{}, 6)
 	only := map[string]bool{}
@@ -886,7 +900,7 @@ func modeFault(thorough bool) {
 			if f == "halfsteady" && !(k == "tcp+pipeline" || k == "tls+pipeline") {
 				continue
 			}
-			if f == "streamlimit" && k != "quic" {
+			if (f == "streamlimit" || f == "halfmany") && k != "quic" {
 				continue
 			}
 			if f == "restart" && !(k == "quic" || k == "h3") {
